@@ -62,9 +62,16 @@ type seedT struct {
 	NImp   int    // number of import specs
 }
 
-func parseSrc(name string, src []byte) (*token.FileSet, *ast.File, error) {
-	fset := token.NewFileSet()
-	f, err := parser.ParseFile(nil, fset, name, src, parser.ParseComments)
+// parseSrc parses with the mode the formatter uses. A parser panic (C08's subject) makes the text
+// invalid for this property, like a syntax error.
+func parseSrc(name string, src []byte) (fset *token.FileSet, f *ast.File, err error) {
+	defer func() {
+		if e := recover(); e != nil {
+			err = fmt.Errorf("parser panic: %v", e)
+		}
+	}()
+	fset = token.NewFileSet()
+	f, err = parser.ParseFile(nil, fset, name, src, parser.ParseComments)
 	return fset, f, err
 }
 
@@ -301,8 +308,21 @@ func (s *seedT) altClass(kind, i int) string {
 	case kGap1, kWatGap1, kWatGap1All:
 		return "inserted:" + altName(s.alts()[i%na])
 	case kGap2:
+		// the comment styles involved (white space alternatives only count when no comment is inserted)
 		o := i % (na * na)
-		return "inserted:" + altName(s.alts()[o/na]) + "+" + altName(s.alts()[o%na])
+		a, b := altName(s.alts()[o/na]), altName(s.alts()[o%na])
+		ca, cb := strings.HasPrefix(a, "comment"), strings.HasPrefix(b, "comment")
+		switch {
+		case ca && !cb:
+			return "inserted:" + a
+		case cb && !ca:
+			return "inserted:" + b
+		case a == b:
+			return "inserted:" + a
+		case a > b:
+			a, b = b, a
+		}
+		return "inserted:" + a + "+" + b
 	case kImports:
 		return "imports-permuted"
 	}
